@@ -208,6 +208,40 @@ theorem entryOf_honest {d : Dirty} {b : Nat} (ht : d.Typed) (hp : d.diff.cleared
 theorem div_lt_numMeta {b n : Nat} (h : b < n) : b / 4096 < numMetaBytePages n := by
   unfold numMetaBytePages PAGE; omega
 
+/-- the buckets a successful run of the loop assigned: inside the table; those of the updated pages pairwise
+distinct; the changed meta pages: duplicate-free and inside the meta map -/
+theorem chain_core {hash : Bytes → Nat} {S : St} {T : Wal.Table} {ds : List Dirty} {w0 : Builder} {bs : List Nat}
+    {cs : List Bool} {a : Acc} (hB : Before hash S T) (hC : ChangesOK hash S T ds)
+    (hch : Chain hash (dataOffset S.mm.buckets) (acc0 S w0) ds bs cs a) :
+    (∀ x ∈ pairs ds bs, x.1 < S.mm.buckets) ∧ ((ups ds bs).map (·.1)).Nodup ∧
+    (sortNat a.changed).Nodup ∧ (∀ p ∈ sortNat a.changed, p < dataOffset S.mm.buckets) := by
+  have hok0 : (acc0 S w0).mm.Ok := hB.wf.ok
+  obtain ⟨v1, v2, v3, v4, v5, v6, v7⟩ := chain_view hB.hh hch T.pages hok0 hB.disk_pages hB.inv hB.nodup
+    (fun d hd => ⟨(hC.typed d hd).pid, fun hc => (hC.plain d hd hc).2⟩) hC.pids hC.contract
+  obtain ⟨c1, c2, c3, c4⟩ := hch.changed_spec
+  have hbk : ∀ x ∈ pairs ds bs, x.1 < S.mm.buckets := v4
+  refine ⟨hbk, ?_, ?_, ?_⟩
+  · -- each updated page is found in its own bucket afterwards
+    have hpn : ((ups ds bs).map (fun x => pidN x.2.pid)).Nodup := (ups_pids_sublist ds bs).nodup hC.pids
+    have hn' : 0 < (viewOf a.mm (pagesAfter T.pages ds bs)).n := by rw [viewOf_n v2]; exact v2.pos
+    have e : (ups ds bs).map (fun x => pidN x.2.pid) =
+        ((ups ds bs).map (·.1)).map (viewOf a.mm (pagesAfter T.pages ds bs)).label := by
+      rw [List.map_map]
+      apply List.map_congr_left
+      intro x hx
+      obtain ⟨hx1, hx2⟩ := ups_sub_pairs ds bs x hx
+      have := v6 x hx1
+      rw [hx2] at this
+      simp only [Bool.false_eq_true, if_false] at this
+      exact (find_lt hn' this).2.2.symm
+    rw [e] at hpn
+    exact List.Pairwise.of_map _ (fun a b h e => h (by rw [e])) hpn
+  · exact (sortNat_perm _).nodup_iff.2 (c1 (by simp [acc0]))
+  · intro p hp
+    rcases c4 p ((sortNat_perm _).mem_iff.1 hp) with h1 | ⟨x, hx, e, _⟩
+    · simp [acc0] at h1
+    · rw [e]; exact div_lt_numMeta (hbk x hx)
+
 /-- everything a successful call under the contract satisfies -/
 theorem prepareSync_facts {hash : Bytes → Nat} {debug : Bool} {S : St} {T : Wal.Table} {seqn : Nat} {ds : List Dirty}
     {b0 : Builder} {res : Res} (hB : Before hash S T) (hC : ChangesOK hash S T ds)
@@ -228,37 +262,21 @@ theorem prepareSync_facts {hash : Bytes → Nat} {debug : Bool} {S : St} {T : Wa
       res.occupied = applyDelta S.occupied
         ((occupied (viewOf res.mm (pagesAfter T.pages ds res.cells)) : Int) - (occupied (viewOf S.mm T.pages) : Int)) ∧
       (∀ x ∈ pairs ds res.cells, find (hashN hash) (viewOf res.mm (pagesAfter T.pages ds res.cells)) (pidN x.2.pid) =
-        if x.2.diff.cleared then none else some x.1) := by
+        if x.2.diff.cleared then none else some x.1) ∧
+      (∀ k d, ds[k]? = some d → needsAlloc d →
+        (alloc (hashN hash) ALLOC_ATTEMPTS (run (hashN hash) ALLOC_ATTEMPTS (viewOf S.mm T.pages) ((ds.take k).map opOf))
+          (pidN d.pid)).isSome = true) := by
   obtain ⟨w0, a, cs, mp, hch, hrun, hmp, hperm, hmm, hocc, _⟩ :=
     prepareSync_ok (fun d hd => (hC.typed d hd).page) h
   have hok0 : (acc0 S w0).mm.Ok := hB.wf.ok
-  obtain ⟨v1, v2, v3, v4, v5, v6⟩ := chain_view hB.hh hch T.pages hok0 hB.disk_pages hB.inv hB.nodup
+  obtain ⟨v1, v2, v3, v4, v5, v6, v7⟩ := chain_view hB.hh hch T.pages hok0 hB.disk_pages hB.inv hB.nodup
     (fun d hd => ⟨(hC.typed d hd).pid, fun hc => (hC.plain d hd hc).2⟩) hC.pids hC.contract
   obtain ⟨c1, c2, c3, c4⟩ := hch.changed_spec
   have hn32 : S.mm.buckets < 2 ^ 32 := hB.wf.2.1
-  have hbk : ∀ x ∈ pairs ds res.cells, x.1 < S.mm.buckets := v4
-  -- the buckets of the updated pages are pairwise distinct: each page is found in its own bucket afterwards
-  have hnd : ((ups ds res.cells).map (·.1)).Nodup := by
-    have hpn : ((ups ds res.cells).map (fun x => pidN x.2.pid)).Nodup := (ups_pids_sublist ds res.cells).nodup hC.pids
-    have hn' : 0 < (viewOf a.mm (pagesAfter T.pages ds res.cells)).n := by rw [viewOf_n v2]; exact v2.pos
-    have e : (ups ds res.cells).map (fun x => pidN x.2.pid) =
-        ((ups ds res.cells).map (·.1)).map (viewOf a.mm (pagesAfter T.pages ds res.cells)).label := by
-      rw [List.map_map]
-      apply List.map_congr_left
-      intro x hx
-      obtain ⟨hx1, hx2⟩ := ups_sub_pairs ds res.cells x hx
-      have := v6 x hx1
-      rw [hx2] at this
-      simp only [Bool.false_eq_true, if_false] at this
-      exact (find_lt hn' this).2.2.symm
-    rw [e] at hpn
-    exact List.Pairwise.of_map _ (fun a b h e => h (by rw [e])) hpn
-  refine ⟨sortNat a.changed, ?_, ?_, ?_, ?_, ?_, ?_, ?_, ?_, ?_, hbk, hnd, ?_, ?_, ?_⟩
-  · exact (sortNat_perm _).nodup_iff.2 (c1 (by simp [acc0]))
-  · intro p hp
-    rcases c4 p ((sortNat_perm _).mem_iff.1 hp) with h1 | ⟨x, hx, e, _⟩
-    · simp [acc0] at h1
-    · rw [e]; exact div_lt_numMeta (hbk x hx)
+  obtain ⟨hbk, hnd, hCn, hCr⟩ := chain_core hB hC hch
+  refine ⟨sortNat a.changed, ?_, ?_, ?_, ?_, ?_, ?_, ?_, ?_, ?_, hbk, hnd, ?_, ?_, ?_, v7⟩
+  · exact hCn
+  · exact hCr
   · intro p hp
     rcases c4 p ((sortNat_perm _).mem_iff.1 hp) with h1 | h1
     · simp [acc0] at h1
